@@ -41,11 +41,16 @@ StepLRows(e) ==
        Report(e.case, LumaRowFails(Types[e.to], e.rows[i]),
               [ev |-> "lrows", from |-> e.from, to |-> e.to, ch |-> e.ch, fix |-> e.fixes[i], lumas |-> e.rows[i]])
   /\ LumaDrift(e)
+StepCss(e) ==
+  /\ e.ev = "css"
+  /\ Report(e.case, CssFails(Types[e.to], e.items),
+            [ev |-> "css", to |-> e.to,
+             bad |-> SelectSeq(e.items, LAMBDA it : \E ch \in 1..3 : ~Nearest(255, ChMax(Types[e.to], ch), it[ch], it[3 + ch]))])
 \* a library call of this case panicked: the property promises a result for every input of its domain
 StepPanic(e) == e.ev = "panic" /\ Report(e.case, {"library_call_panicked"}, [msg |-> e.msg, loc |-> e.loc])
 
 Next == /\ l <= NRec
-        /\ LET e == Rec[l] IN StepCase(e) \/ StepGraph(e) \/ StepPair(e) \/ StepLRows(e) \/ StepPanic(e)
+        /\ LET e == Rec[l] IN StepCase(e) \/ StepGraph(e) \/ StepPair(e) \/ StepLRows(e) \/ StepCss(e) \/ StepPanic(e)
         /\ l' = l + 1
 Spec == Init /\ [][Next]_l
 
